@@ -16,6 +16,7 @@ type c03Tok struct {
 	id     int
 	origin bool // origin token of this chain (id 0 native, id 1 ERC-20, or an extra unbound one)
 	oc, ot int  // for vouchers: origin chain / token
+	scale  int
 }
 
 func (h *c03Harness) generate(steps int, emit func(op string)) {
@@ -26,6 +27,31 @@ func (h *c03Harness) generate(steps int, emit func(op string)) {
 		toks[c] = []c03Tok{{id: 0, origin: true}, {id: 1, origin: true}}
 		emit(fmt.Sprintf("deploy %d 1", c))
 		emit(fmt.Sprintf("mint %d 1 0 %d", c, 5000+rng.Intn(5000)))
+		// two further sending accounts: some coins and tokens, allowances that are exact, too small or missing
+		for _, a := range []int{c03AccU8, c03AccU9} {
+			if rng.Intn(4) > 0 {
+				emit(fmt.Sprintf("transfer %d 0 0 %d %d", c, a, 500+rng.Intn(3000)))
+			}
+			if rng.Intn(5) > 0 {
+				emit(fmt.Sprintf("mint %d 1 %d %d", c, a, 500+rng.Intn(3000)))
+			}
+			switch rng.Intn(4) {
+			case 0: // no allowance at all
+			case 1:
+				emit(fmt.Sprintf("approve %d 1 %d %d", c, a, 1+rng.Intn(300)))
+			default:
+				emit(fmt.Sprintf("approve %d 1 %d %d", c, a, 1000+rng.Intn(5000)))
+			}
+		}
+	}
+	scaleOf := func() int {
+		switch rng.Intn(20) {
+		case 0, 1, 2, 3, 4:
+			return 1
+		case 5, 6, 7:
+			return 2
+		}
+		return 0
 	}
 	// first-level vouchers
 	for c := 0; c < c03NChains; c++ {
@@ -38,9 +64,10 @@ func (h *c03Harness) generate(steps int, emit func(op string)) {
 					continue // leave unbound: transfers of it are refused with an error result and refunded
 				}
 				id := len(toks[c])
-				toks[c] = append(toks[c], c03Tok{id: id, oc: o, ot: ot})
+				sc := scaleOf()
+				toks[c] = append(toks[c], c03Tok{id: id, oc: o, ot: ot, scale: sc})
 				emit(fmt.Sprintf("deploy %d %d", c, id))
-				emit(fmt.Sprintf("bind %d %d %d %d", c, id, o, ot))
+				emit(fmt.Sprintf("bind %d %d %d %d %d", c, id, o, ot, sc))
 			}
 		}
 	}
@@ -56,9 +83,10 @@ func (h *c03Harness) generate(steps int, emit func(op string)) {
 					continue
 				}
 				id := len(toks[c])
-				toks[c] = append(toks[c], c03Tok{id: id, oc: o, ot: v.id})
+				sc := scaleOf()
+				toks[c] = append(toks[c], c03Tok{id: id, oc: o, ot: v.id, scale: sc})
 				emit(fmt.Sprintf("deploy %d %d", c, id))
-				emit(fmt.Sprintf("bind %d %d %d %d", c, id, o, v.id))
+				emit(fmt.Sprintf("bind %d %d %d %d %d", c, id, o, v.id, sc))
 			}
 		}
 	}
@@ -91,7 +119,7 @@ func (h *c03Harness) generate(steps int, emit func(op string)) {
 		}
 	}
 	callSpec := func(c, d int, amt string) (string, int) {
-		rcv := []int{0, 6, 7, 0, 6}[rng.Intn(5)]
+		rcv := []int{0, 6, 7, 8, 9, 8}[rng.Intn(6)]
 		switch x := rng.Intn(100); {
 		case x < 40:
 			return "n", rcv
@@ -157,10 +185,11 @@ func (h *c03Harness) generate(steps int, emit func(op string)) {
 			if rng.Intn(40) == 0 {
 				d = c
 			}
-			// prefer tokens the user holds
+			snd := []int{0, 0, 0, 8, 8, 9}[rng.Intn(6)]
+			// prefer tokens the sender holds
 			var held []c03Tok
 			for _, t := range toks[c] {
-				if h.w.balance(c, h.w.tok[c][t.id], h.w.acc[0]).Sign() > 0 {
+				if h.w.balance(c, h.w.tok[c][t.id], h.w.acc[snd]).Sign() > 0 {
 					held = append(held, t)
 				}
 			}
@@ -174,16 +203,24 @@ func (h *c03Harness) generate(steps int, emit func(op string)) {
 						backs = append(backs, v)
 					}
 				}
-				if len(backs) > 0 && rng.Intn(2) == 0 {
+				if len(backs) > 0 && rng.Intn(3) > 0 {
 					t = backs[rng.Intn(len(backs))]
+					for _, v := range backs { // round trips of scaled bound tokens are the rarer case: prefer them
+						if v.scale > 0 && rng.Intn(2) == 0 {
+							t = v
+						}
+					}
 					if rng.Intn(4) > 0 {
 						d = t.oc
 					}
 				}
 			}
-			bal := h.w.balance(c, h.w.tok[c][t.id], h.w.acc[0])
-			if t.id == 0 {
+			bal := h.w.balance(c, h.w.tok[c][t.id], h.w.acc[snd])
+			if t.id == 0 && bal.Cmp(big.NewInt(4000)) > 0 {
 				bal = big.NewInt(int64(2000 + rng.Intn(2000)))
+			}
+			if !t.origin && d == t.oc && t.scale > 0 { // going home: the amount is given in origin units
+				bal = new(big.Int).Div(bal, new(big.Int).Exp(big.NewInt(10), big.NewInt(int64(t.scale)), nil))
 			}
 			amt := amount(bal)
 			call, rcv := callSpec(c, d, amt)
@@ -198,7 +235,31 @@ func (h *c03Harness) generate(steps int, emit func(op string)) {
 			if rng.Intn(3) == 0 {
 				fa = 0
 			}
-			emit(fmt.Sprintf("send %d %d %d %s %d %d %d %s", c, d, t.id, amt, rcv, ft, fa, call))
+			if snd != 0 && t.id != 0 {
+				// allowance management of the further senders: exact, one short, stale or none
+				a, _ := new(big.Int).SetString(amt, 10)
+				if !t.origin && d == t.oc {
+					a.Mul(a, new(big.Int).Exp(big.NewInt(10), big.NewInt(int64(t.scale)), nil))
+				}
+				switch rng.Intn(7) {
+				case 0, 1, 2:
+					if ft == t.id { // the fee is pulled from the same allowance
+						a.Add(a, big.NewInt(int64(fa)))
+					}
+					emit(fmt.Sprintf("approve %d %d %d %s", c, t.id, snd, a))
+				case 3:
+					emit(fmt.Sprintf("approve %d %d %d %s", c, t.id, snd, new(big.Int).Add(a, big.NewInt(int64(20+rng.Intn(40))))))
+				case 4:
+					if a.Sign() > 0 {
+						emit(fmt.Sprintf("approve %d %d %d %s", c, t.id, snd, new(big.Int).Sub(a, big.NewInt(1))))
+					}
+				}
+			}
+			emit(fmt.Sprintf("send %d %d %d %d %s %d %d %d %s", c, snd, d, t.id, amt, rcv, ft, fa, call))
+			if rng.Intn(12) == 0 { // an ordinary transfer in between (tokens reach the further senders this way too)
+				to := []int{8, 9, 6}[rng.Intn(3)]
+				emit(fmt.Sprintf("transfer %d %d %d %d %d", c, t.id, []int{0, 8}[rng.Intn(2)], to, 1+rng.Intn(200)))
+			}
 		case x < 70 || len(unacked) == 0:
 			switch y := rng.Intn(20); {
 			case y == 0 && len(unacked)+len(done) > 0: // duplicate delivery
